@@ -419,7 +419,11 @@ def run(rep):
     obs = []
     normal = [c for c in cfgs if c["kind"] != "orders"]
     obs += pmap("props.c02", "worker", normal, rep.tier)
-    rep.encode(N._reset, W.reset)
+    # start-up order: a sender started before its receiver announces arrivals to a connection that is READY, not yet RUNNING; dropping them would make
+    # the episode depend on how far the main thread's start loop had got
+    ready = pmap("props.c03", "worker", [dict(scen="push_ts_input", nq=0, blocking=b, eps=0, state="ready") for b in (False, True)], rep.tier)
+    obs += [o for o in ready if "is accepted" in o.get("name", "") or "raise no exception" in o.get("name", "") or o.get("verdict") == "error"]  # the timing clauses of that scenario are C03's
+    rep.encode(N._reset, W.reset, W.push_ts_input)
     obs += pmap("props.c02", "worker_reset", [dict(blocking=False), dict(blocking=True)], rep.tier, serial=True)
     orders = [c for c in cfgs if c["kind"] == "orders"]
     if orders:
